@@ -11,11 +11,11 @@ namespace Splipy.MP
 theorem GU.equiv_refl {nc : ℕ} {x : Obj} (h : GU nc x) : Equiv x x := Equiv.refl' h.good
 
 theorem GU.equiv_symm {nc : ℕ} {x y : Obj} (hx : GU nc x) (hy : GU nc y) (h : Equiv x y) : Equiv y x :=
-  Equiv.symm' hx.good hy.good (by rw [hx.nonrat, hy.nonrat]) h
+  Equiv.symm_full hx.good hy.good h
 
 theorem GU.equiv_trans {nc : ℕ} {x y z : Obj} (hx : GU nc x) (hy : GU nc y) (hz : GU nc z)
     (h1 : Equiv x y) (h2 : Equiv y z) : Equiv x z :=
-  Equiv.trans' hx.good hy.good hz.good (by rw [hx.nonrat, hy.nonrat]) (by rw [hy.nonrat, hz.nonrat]) h1 h2
+  Equiv.trans_full hx.good hy.good hz.good h1 h2
 
 theorem Equiv.pardim_eq {x y : Obj} (h : Equiv x y) : x.pardim = y.pardim := by
   obtain ⟨o, ho⟩ := h
@@ -34,8 +34,11 @@ theorem GU.point_shape {nc : ℕ} {x : Obj} (h : GU nc x) (h0 : x.pardim = 0) : 
   rw [h0] at this
   exact List.length_eq_zero_iff.1 this
 
+/-- the single control point of a point object -/
+def thePoint (x : Obj) : List ℚ := x.cps.data.getD 0 []
+
 theorem GU.point_cps {nc : ℕ} {x : Obj} (h : GU nc x) (h0 : x.pardim = 0) :
-    x.cps = ⟨[], #[pointKey x]⟩ := by
+    x.cps = ⟨[], #[thePoint x]⟩ := by
   have hs := h.point_shape h0
   have hsz : x.cps.data.size = 1 := by
     have := h.good.size
@@ -46,36 +49,57 @@ theorem GU.point_cps {nc : ℕ} {x : Obj} (h : GU nc x) (h0 : x.pardim = 0) :
     rw [hx] at hs hsz
     simp only at hs hsz
     subst hs
-    have : d = #[pointKey x] := by
+    have : d = #[thePoint x] := by
       apply Array.ext
       · simp [hsz]
       · intro i h1 h2
         have hi : i = 0 := by omega
         subst hi
-        simp [pointKey, h.nonrat, hx, Array.getD_eq_getD_getElem?, h1]
+        simp [thePoint, hx, Array.getD_eq_getD_getElem?, h1]
     rw [this]
+
+/-- the canonical net of a point: its key with weight 1 -/
+theorem GU.point_pnet {nc : ℕ} {x : Obj} (h : GU nc x) (h0 : x.pardim = 0) :
+    pnet x = ⟨[], #[pointKey x ++ [1]]⟩ := by
+  have hq : qnet x = ⟨[], #[if x.rational then thePoint x else thePoint x ++ [1]]⟩ := by
+    unfold qnet
+    rw [h.point_cps h0]
+    split <;> simp [promoteNet, NdArr.map]
+  have hw : wsum (qnet x) = lastD (if x.rational then thePoint x else thePoint x ++ [1]) := by
+    rw [hq]; simp [wsum]
+  have hne := h.wsum_ne
+  rw [pnet_eq, hw] at *
+  rw [hq]
+  simp only [NdArr.map, List.map_toArray, List.map_cons, List.map_nil, NdArr.mk.injEq, true_and]
+  congr 1
+  unfold fS
+  rw [div_self hne]
+  congr 1
+  unfold pointKey thePoint
+  split <;> simp
 
 theorem point_equiv_iff {nc : ℕ} {a b : Obj} (ha : GU nc a) (hb : GU nc b) (ha0 : a.pardim = 0)
     (hb0 : b.pardim = 0) : Equiv a b ↔ pointKey a = pointKey b := by
-  have hr : a.rational = b.rational := by rw [ha.nonrat, hb.nonrat]
-  have hbl : b.cps.shape.length = 0 := by rw [hb.point_shape hb0]; rfl
-  have hbs : b.cps.data.size = shapeSize b.cps.shape := hb.good.size
+  have hbl : (pnet b).shape.length = 0 := by rw [hb.point_pnet hb0]; rfl
+  have hbs : (pnet b).data.size = shapeSize (pnet b).shape := by rw [hb.point_pnet hb0]; rfl
+  have hwf0 : (Orientation.identity 0).WF 0 := Orientation.identity_wf 0
   constructor
   · rintro ⟨o, ho⟩
     obtain ⟨hwf, hfit, _, _⟩ := compute_sound a b o ho
     rw [ha0] at hwf
-    obtain ⟨_, harr, _⟩ := (fits_same_iff hr o).1 hfit
-    rw [ha.netOf, hb.netOf, wf_zero hwf, identity_mapArray 0 b.cps hbl hbs] at harr
-    rw [ha.point_cps ha0, hb.point_cps hb0] at harr
-    simpa using harr.symm
+    obtain ⟨_, harr, _⟩ := (fits_pnet_iff hwf hb.good hb0).1 hfit
+    rw [wf_zero hwf, identity_mapArray 0 (pnet b) hbl hbs, ha.point_pnet ha0, hb.point_pnet hb0] at harr
+    simp only [NdArr.mk.injEq, true_and] at harr
+    have := congrArg (fun a : Array (List ℚ) => a.toList) harr
+    simp only [List.cons.injEq, and_true] at this
+    exact (List.append_inj_left' this rfl).symm
   · intro hk
-    have hcps : b.cps = a.cps := by rw [ha.point_cps ha0, hb.point_cps hb0, hk]
     apply compute_complete a b hb.good.axes (by rw [ha0, hb0]) (by rw [ha.dimension, hb.dimension])
-    refine ⟨Orientation.identity 0, by rw [ha0]; exact Orientation.identity_wf 0, ?_⟩
-    rw [fits_same_iff hr, ha.netOf, hb.netOf, identity_mapArray 0 b.cps hbl hbs]
-    refine ⟨?_, hcps, ?_⟩
+    refine ⟨Orientation.identity 0, by rw [ha0]; exact hwf0, ?_⟩
+    rw [fits_pnet_iff hwf0 hb.good hb0, identity_mapArray 0 (pnet b) hbl hbs]
+    refine ⟨?_, by rw [ha.point_pnet ha0, hb.point_pnet hb0, hk], ?_⟩
     · show (Orientation.identity 0).mapShape b.cps.shape = a.cps.shape
-      rw [hcps, identity_shape 0 _ (by rw [ha.point_shape ha0]; rfl)]
+      rw [hb.point_shape hb0, ha.point_shape ha0]; rfl
     · rw [basesMatch_iff]
       intro i hi
       rw [ha0] at hi
